@@ -44,9 +44,11 @@ func GetNodePreferableGpuForSharing(fittingGPUsOnNode []string, node *node_info.
 	}
 
 	deviceCounts := pod.ResReq.GetNumOfGpuDevices()
+	wholeGpus := 0
 	for _, gpuIdx := range fittingGPUsOnNode {
 		if gpuIdx == pod_info.WholeGpuIndicator {
-			if wholeGpuForSharing := findGpuForSharingOnNode(pod, node, isPipelineOnly); wholeGpuForSharing != nil {
+			wholeGpus++
+			if wholeGpuForSharing := findGpuForSharingOnNode(pod, node, isPipelineOnly, wholeGpus); wholeGpuForSharing != nil {
 				nodeGpusSharing.IsReleasing =
 					nodeGpusSharing.IsReleasing || wholeGpuForSharing.IsReleasing
 				nodeGpusSharing.Groups = append(nodeGpusSharing.Groups, wholeGpuForSharing.Groups...)
@@ -67,10 +69,14 @@ func GetNodePreferableGpuForSharing(fittingGPUsOnNode []string, node *node_info.
 	return nil
 }
 
-func findGpuForSharingOnNode(task *pod_info.PodInfo, node *node_info.NodeInfo, isPipelineOnly bool) *nodeGpuForSharing {
+// findGpuForSharingOnNode opens a new gpu group on a whole gpu of the node. wholeGpus is the number of whole gpus the
+// task takes on this node including this one: the group is on an idle gpu only if that many whole gpus are idle,
+// node.IsTaskAllocatable alone also counts the shared gpus that the task fits on.
+func findGpuForSharingOnNode(task *pod_info.PodInfo, node *node_info.NodeInfo, isPipelineOnly bool,
+	wholeGpus int) *nodeGpuForSharing {
 	isReleasing := true
 	if !isPipelineOnly {
-		if taskAllocatable := node.IsTaskAllocatable(task); taskAllocatable {
+		if taskAllocatable := node.IsTaskAllocatable(task); taskAllocatable && int(node.Idle.GPUs()) >= wholeGpus {
 			isReleasing = false
 		}
 	}
